@@ -9,8 +9,9 @@ CORR_MODULES = ["Xcdr.XcdrCorr"]
 PREFIX = "C09"
 CASE_TYPE = "C09_case"
 HARNESS = "c09"
-# classes 1 (C09-char8-utf8) and 2 (C09-float128-xcdr1-align) were repaired in /repo (c6ffb24, 0b5427b)
-KNOWN = {3: "C09-xcdr1-optional-rewind", 4: "C09-stage3-mutable-union"}
+# classes 1 (C09-char8-utf8), 2 (C09-float128-xcdr1-align), 3 (C09-xcdr1-optional-rewind) were repaired in
+# /repo (c6ffb24, 0b5427b, addc370)
+KNOWN = {4: "C09-stage3-mutable-union", 5: "C09-zero-size-values", 6: "C09-xcdr1-pid-overflow"}
 RULE = ("one case = a run-time built DynamicType + DynamicData serialized by the real serializer "
         "(XCDR1/XCDR2 x LE/BE) and the produced bytes deserialized by the real deserializer; bytes and decoded "
         "value are compared with the Coq encoder/decoder, the round-trip oracle is applied to the implementation's "
@@ -331,8 +332,6 @@ def misparse_prone(ver, t, v):
     """classes in which the real reader is known to lose its position: a misparsed length over
     zero-progress elements makes the real code spin for 2^32 iterations"""
     if stage_of(t) == 3:
-        return True
-    if ver == 1 and anyt(lambda x: x[0] == "S" and any(m[1] & 1 for m in x[2]), t):
         return True
     return False
 
